@@ -36,7 +36,7 @@ func c18FuzzBody(x *h.Ctx, data []byte) {
 	case strings.HasPrefix(s, "did:web:"):
 		id := s[len("did:web:"):]
 		for i, sc := range c18FuzzScripts {
-			c18RunWeb(x, c18WebCase{ID: id, Strict: true, Cache: i == 1, Script: sc})
+			c18RunWeb(x, c18WebCase{ID: id, Strict: true, Cache: i == 1, Script: sc, Order: []string{"after", "before"}[i]})
 		}
 		// and the struct-literal route (no-panic only outside the grammar)
 		c18RunWeb(x, c18WebCase{ID: id, Raw: true, Strict: true, Script: c18FuzzScripts[0]})
